@@ -42,6 +42,8 @@ struct MT {
 
 #[derive(Default, Debug, Clone)]
 pub struct MonStats {
+    /// stored own-area shares compared with the reference for detections that are partly covered
+    pub own_area_checks_occluded: usize,
     pub crowded_calls: usize,
     pub expired_in_store_ops: usize,
     pub continuations: usize,
@@ -135,6 +137,7 @@ pub fn run_monitored_with(h: &History, flags: Flags, before_predict: &mut dyn Fn
     let hist = cfg.history;
     // results of a multi-scene batch that belong to later predict operations
     let mut pending: BTreeMap<usize, Vec<Rec>> = BTreeMap::new();
+    let mut pending_before: BTreeMap<usize, BTreeMap<u64, TrackView>> = BTreeMap::new();
     for (k, op) in h.ops.iter().enumerate() {
         let ep = |epochs: &BTreeMap<u64, usize>, s: u64| epochs.get(&s).copied().unwrap_or(0);
         // is some expired track still physically in the live store?
@@ -186,7 +189,15 @@ pub fn run_monitored_with(h: &History, flags: Flags, before_predict: &mut dyn Fn
                         st.fragile_at = Some(k);
                     }
                 }
-                let before_views: BTreeMap<u64, TrackView> = if flags.c13 && cfg.kind.is_visual() { tr.views(shards).into_iter().map(|v| (v.id, v)).collect() } else { BTreeMap::new() };
+                // (a call that was executed as part of an earlier multi-scene batch keeps the views
+                // taken before that batch)
+                let before_views: BTreeMap<u64, TrackView> = if let Some(b) = pending_before.remove(&k) {
+                    b
+                } else if flags.c13 && cfg.kind.is_visual() {
+                    tr.views(shards).into_iter().map(|v| (v.id, v)).collect()
+                } else {
+                    BTreeMap::new()
+                };
                 let installed = before_predict(k, dets.len());
                 let recs = if let Some(r) = pending.remove(&k) {
                     r
@@ -215,6 +226,9 @@ pub fn run_monitored_with(h: &History, flags: Flags, before_predict: &mut dyn Fn
                         let r = it.next().map(|x| x.1.clone());
                         ensure!(r.is_some() && it.next().is_none(), "c01-batch-result-scene", "op {}: the batch did not deliver exactly one result for scene {}", k, sc);
                         pending.insert(*idx, r.unwrap());
+                        if *idx != k {
+                            pending_before.insert(*idx, before_views.clone());
+                        }
                     }
                     pending.remove(&k).unwrap()
                 } else {
@@ -462,6 +476,9 @@ fn check_gallery(cfg: &Cfg, before: Option<&TrackView>, after: &TrackView, det: 
     // index 0 is the newest entry and the only one with a box
     let newest = &after.gallery[0];
     if let Some(oa) = own_area {
+        if oa < 0.98 {
+            st.own_area_checks_occluded += 1;
+        }
         match newest.own_area {
             Some(stored) => ensure!((stored as f64 - oa).abs() <= 2e-3, "c13-own-area-value", "op {}: track {}: the newest observation is stored with own-area share {} but {} of the detection is uncovered", k, after.id, stored, oa),
             None => return Err(Fail::new("c13-own-area-lost", format!("op {}: track {}: the newest observation carries no own-area share although an own-area threshold is configured", k, after.id))),
